@@ -220,6 +220,10 @@ class FunctionDefinition:
             value = args[i]
             if value is utils.NO_VALUE:
                 value = positional_args[i].default
+                if value is NO_DEFAULT:
+                    # a skipped slot needs a default to fall back to
+                    # (a slot in the *args region has none)
+                    return None
             if not positional_args[i].value_type.check(value, context, engine):
                 return None
         for kwd in kwargs:
